@@ -3,9 +3,8 @@ pub open spec fn set_default() -> spec_fn(ExpandedName) -> bool { |p: ExpandedNa
 pub open spec fn set_list_item() -> spec_fn(ExpandedName) -> bool { |p: ExpandedName| ts_list_item_scope(p) }
 pub open spec fn set_heading() -> spec_fn(ExpandedName) -> bool { |p: ExpandedName| ts_heading_tag(p) }
 pub open spec fn is_heading() -> spec_fn(Handle) -> bool { |h: Handle| ts_heading_tag(elem_name_of(h)) }
-/// facts about the tag sets used by the in-body rules (ASSUMED; instances of what U-tagsets proves)
-#[verifier::external_body]
-pub proof fn axiom_body_sets()
+/// facts about the tag sets used by the in-body rules (PROVED from the repository's own tag-set text, module `ts`)
+pub proof fn lemma_body_sets()
     ensures
         !ts_cursory_implied_end(html_name(local_name!("html"))), !ts_heading_tag(html_name(local_name!("html"))), ts_special_tag(html_name(local_name!("html"))),
         ts_default_scope(html_name(local_name!("html"))), ts_button_scope(html_name(local_name!("html"))), ts_list_item_scope(html_name(local_name!("html"))),
@@ -18,7 +17,14 @@ pub proof fn axiom_body_sets()
         !ts_special_tag(html_name(local_name!("em"))), !ts_special_tag(html_name(local_name!("font"))), !ts_special_tag(html_name(local_name!("i"))), !ts_special_tag(html_name(local_name!("nobr"))),
         !ts_special_tag(html_name(local_name!("s"))), !ts_special_tag(html_name(local_name!("small"))), !ts_special_tag(html_name(local_name!("strike"))), !ts_special_tag(html_name(local_name!("strong"))),
         !ts_special_tag(html_name(local_name!("tt"))), !ts_special_tag(html_name(local_name!("u"))),
-{}
+{
+    reveal(ts_cursory_implied_end);
+    reveal(ts_heading_tag);
+    reveal(ts_special_tag);
+    reveal(ts_default_scope);
+    reveal(ts_button_scope);
+    reveal(ts_list_item_scope);
+}
 /// what the in-body rules need of the tree builder's state (ASSUMED at entry: invariants of the tree builder)
 pub open spec fn body_pre(tb: &TreeBuilder) -> bool {
     &&& tb.small() && tb.stack().len() > 0 && html_named(tb.stack()[0], local_name!("html"))
